@@ -25,11 +25,19 @@ def global_expire(v, tier, seed, scen=None):
             raise Internal("Expire: only %d crash schedules" % len(crash))
         rng = random.Random(seed)
         rng.shuffle(crash)
-        crash = crash[:250 if tier == "quick" else 4000]
-        n = 150 if tier == "quick" else 3000
+        crash = crash[:250 if tier == "quick" else 2000]
+        n = 150 if tier == "quick" else 1500
         r = run_tlc("MCExpire", "Expire_sim.cfg", workers=1, simulate=n, depth=14, seed=seed, timeout=1800)
         require_ok(r, "Expire simulation")
         sim = [json.loads(p) for p in sorted(set(r.lines("BEH")))]
+        os.unlink(r.outfile)
+        # three torrents (two within their share, one above it)
+        r = run_tlc("Expire", "Expire_mc3.cfg", workers=8, timeout=1800)
+        require_ok(r, "Expire model checking, three torrents")
+        v.add_tlc("Expire_mc3.cfg", r)
+        r = run_tlc("MCExpire", "Expire_sim3.cfg", workers=1, simulate=n // 2, depth=14, seed=seed + 3, timeout=1800)
+        require_ok(r, "Expire simulation, three torrents")
+        sim += [json.loads(p) for p in sorted(set(r.lines("BEH")))]
         os.unlink(r.outfile)
         scen = [{"binding": "gexpire", "low": LOW, "high": HIGH, "steps": s} for s in crash + sim]
         for i, sc in enumerate(scen):
